@@ -46,7 +46,7 @@ func genC04(r *rand.Rand, thorough bool) *c04Case {
 	switch x := r.Intn(100); {
 	case x < 3:
 		k = 100 + r.Intn(400)
-	case x == 3 && thorough:
+	case x == 3 && thorough && r.Intn(8) == 0: // the weighing of thousands of targets is cubic: a few per run
 		k = 1000 + r.Intn(1500)
 	}
 	cs := &c04Case{}
@@ -139,7 +139,7 @@ func c04Expect(cs *c04Case) (fixed, eff []float64, ok bool) {
 }
 
 func c04Weights(c *ctx) {
-	n := c.scale(c.pick(4000, 120000))
+	n := c.scale(c.pick(4000, 60000))
 	c.R.Rule = "routes with 1-40 (sometimes hundreds/thousands of) targets and fixed/dynamic weight vectors (+ 'route weight' commands); effective weights vs reference normalisation, ring slot counts, exact per-cycle round-robin counts, rnd picker never picks zero weight. non-trivial = >=2 targets with at least one fixed weight; distinct by weight vector + commands"
 	pickRR, pickRnd := route.Picker["rr"], route.Picker["rnd"]
 	run := func(cs *c04Case, i int) {
